@@ -16,7 +16,7 @@ HARNESSES = {
     "codec": dict(srcs=["harness/codec/codec.c", "harness/refdns/refdns.c"], flavor="asan",
                   cflags="-I%s/harness/refdns" % VERIF),
     "simnet": dict(srcs=["harness/simnet/simnet.c"], flavor="asan-det",
-                   ldflags="-Wl,--wrap=ares_tvnow -Wl,--wrap=getenv"),
+                   ldflags="-Wl,--wrap=ares_tvnow -Wl,--wrap=getenv -Wl,--wrap=srand"),
     "cfg": dict(srcs=["harness/cfg/cfg.c"], flavor="asan-det",
                 ldflags="-Wl,--wrap=fopen -Wl,--wrap=stat -Wl,--wrap=getenv -Wl,--wrap=ares_tvnow"),
     "etstress": dict(srcs=["harness/etstress/etstress.c", "harness/refdns/refdns.c"], flavor="tsan",
